@@ -661,9 +661,7 @@ class VectorObject2D(VectorObject, Planar, Vector2D):
         if not _is_type_safe(kwargs):
             raise TypeError("a coordinate must be of the type int or float")
 
-        for k, v in kwargs.copy().items():
-            kwargs.pop(k)
-            kwargs[_repr_momentum_to_generic.get(k, k)] = v
+        kwargs = _generic_kwargs(kwargs)
 
         if not kwargs and azimuthal is not None:
             self.azimuthal = azimuthal
@@ -1028,9 +1026,7 @@ class VectorObject3D(VectorObject, Spatial, Vector3D):
         if not _is_type_safe(kwargs):
             raise TypeError("a coordinate must be of the type int or float")
 
-        for k, v in kwargs.copy().items():
-            kwargs.pop(k)
-            kwargs[_repr_momentum_to_generic.get(k, k)] = v
+        kwargs = _generic_kwargs(kwargs)
 
         if not kwargs and azimuthal is not None and longitudinal is not None:
             self.azimuthal = azimuthal
@@ -1685,9 +1681,7 @@ class VectorObject4D(VectorObject, Lorentz, Vector4D):
         temporal: TemporalObject | None = None,
         **kwargs: float,
     ) -> None:
-        for k, v in kwargs.copy().items():
-            kwargs.pop(k)
-            kwargs[_repr_momentum_to_generic.get(k, k)] = v
+        kwargs = _generic_kwargs(kwargs)
 
         if (
             not kwargs
@@ -2095,6 +2089,19 @@ class MomentumObject4D(LorentzMomentum, VectorObject4D):
     @mass.setter
     def mass(self, mass: float) -> None:
         self.temporal = TemporalObjectTau(mass)
+
+
+def _generic_kwargs(kwargs: dict[str, typing.Any]) -> dict[str, typing.Any]:
+    """Renames momentum-spelled coordinates to their generic names, refusing duplicates."""
+    out: dict[str, typing.Any] = {}
+    for k, v in kwargs.items():
+        generic = _repr_momentum_to_generic.get(k, k)
+        if generic in out:
+            raise TypeError(
+                f"duplicate coordinates (through momentum-aliases): {generic!r}"
+            )
+        out[generic] = v
+    return out
 
 
 def _is_type_safe(coordinates: dict[str, typing.Any]) -> bool:
